@@ -233,7 +233,8 @@ pub fn check(c: &TlsCase) -> Outcome {
 
 #[derive(Clone, Debug, Hash, PartialEq, Eq, Serialize, Deserialize)]
 pub enum RStep {
-    Connect,
+    /// new handshake; client certificate: 0 none, 1 under the server's client CA, 2 under another CA
+    Connect(u8),
     UseOpen(u8),
     Reload,
 }
@@ -242,6 +243,9 @@ pub enum RStep {
 pub struct ReloadCase {
     pub steps: Vec<RStep>,
     pub alg: u8,
+    /// the server is configured with a client CA (before and after every reload)
+    #[serde(default)]
+    pub client_ca: bool,
 }
 
 pub fn check_reload(c: &ReloadCase) -> Outcome {
@@ -255,8 +259,16 @@ pub fn check_reload(c: &ReloadCase) -> Outcome {
         (files.write(&format!("s{generation}.pem"), &p), files.write(&format!("s{generation}.key"), &k), der)
     };
     let (cp, kp, mut current_der) = write_leaf(0);
+    let client_ca = make_ca("client ca", c.alg);
+    let other_ca = make_ca("other ca", c.alg);
+    let client_ca_path = files.write("clientca.pem", &client_ca.pem);
+    let good = make_leaf(&["client.test".into()], "client", Some(&client_ca), c.alg, true);
+    let bad = make_leaf(&["client.test".into()], "client", Some(&other_ca), c.alg, true);
+    let good_paths = (files.write("cgood.pem", &good.0), files.write("cgood.key", &good.1));
+    let bad_paths = (files.write("cbad.pem", &bad.0), files.write("cbad.key", &bad.1));
+    let ca_opt: Option<&str> = if c.client_ca { Some(client_ca_path.as_str()) } else { None };
     let r: Result<(u32, u32, bool), (String, String)> = rt().block_on(async {
-        let identity = tls::make_tls_identity(&cp, &kp, None).await.map_err(|e| ("c17-config-error".to_string(), format!("{e}")))?;
+        let identity = tls::make_tls_identity(&cp, &kp, ca_opt).await.map_err(|e| ("c17-config-error".to_string(), format!("{e}")))?;
         // open connections: (client stream, server stream, generation)
         let mut open: Vec<(tokio_rustls::TlsStream<tokio::io::DuplexStream>, tokio_rustls::server::TlsStream<tokio::io::DuplexStream>, u32)> = vec![];
         let mut connects = 0;
@@ -264,18 +276,47 @@ pub fn check_reload(c: &ReloadCase) -> Outcome {
         let mut reloaded_with_live = false;
         for (i, st) in c.steps.iter().enumerate() {
             match st {
-                RStep::Connect => {
+                RStep::Connect(cc) => {
+                    let (ccert, ckey) = match cc % 3 {
+                        0 => (None, None),
+                        1 => (Some(good_paths.0.as_str()), Some(good_paths.1.as_str())),
+                        _ => (Some(bad_paths.0.as_str()), Some(bad_paths.1.as_str())),
+                    };
+                    let want_ok = !c.client_ca || cc % 3 == 1;
                     let (cio, sio) = tokio::io::duplex(1 << 16);
                     // as run_listener does: the identity is loaded per accepted connection
                     let cfg = identity.load_full();
                     let acc = tokio::spawn(async move { tokio_rustls::TlsAcceptor::from(cfg).accept(sio).await });
-                    let cs = tls::tls_connect(cio, "reload.test", None, None, Some(ca_path.as_str()), false).await.map_err(|e| ("c17-reload-connect-failed".to_string(), format!("step {i}: {e}")))?;
-                    let ss = acc.await.unwrap().map_err(|e| ("c17-reload-accept-failed".to_string(), format!("step {i}: {e}")))?;
-                    let seen = cs.get_ref().1.peer_certificates().and_then(|c| c.first()).map(|c| c.as_ref().to_vec());
-                    if seen.as_deref() != Some(current_der.as_slice()) {
-                        return Err(("c17-reload-stale-identity".to_string(), format!("step {i}: a handshake after {generation} reload(s) did not present the current certificate")));
+                    let cres = tls::tls_connect(cio, "reload.test", ccert, ckey, Some(ca_path.as_str()), false).await;
+                    let sres = acc.await.unwrap();
+                    // with TLS 1.3 a refused client certificate surfaces on the first read: exchange a byte
+                    let mut ok = cres.is_ok() && sres.is_ok();
+                    let mut pair = None;
+                    if let (Ok(mut cs), Ok(mut ss)) = (cres, sres) {
+                        let echo = async {
+                            cs.write_all(&[1]).await?;
+                            cs.flush().await?;
+                            let mut b = [0u8; 1];
+                            ss.read_exact(&mut b).await?;
+                            ss.write_all(&[2]).await?;
+                            ss.flush().await?;
+                            cs.read_exact(&mut b).await?;
+                            Ok::<_, std::io::Error>(())
+                        };
+                        ok = matches!(tokio::time::timeout(std::time::Duration::from_secs(20), echo).await, Ok(Ok(())));
+                        pair = Some((cs, ss));
                     }
-                    open.push((cs, ss, generation));
+                    if ok != want_ok {
+                        let sig = if ok { "c17-reload-unauthenticated-client-accepted" } else { "c17-reload-connect-failed" };
+                        return Err((sig.to_string(), format!("step {i}: after {generation} reload(s), server client-CA configured: {}, client certificate {}: the connection {} but should have {}", c.client_ca, ["none", "under the client CA", "under another CA"][(cc % 3) as usize], if ok { "succeeded" } else { "failed" }, if want_ok { "succeeded" } else { "failed" })));
+                    }
+                    if let (true, Some((cs, ss))) = (ok, pair) {
+                        let seen = cs.get_ref().1.peer_certificates().and_then(|c| c.first()).map(|c| c.as_ref().to_vec());
+                        if seen.as_deref() != Some(current_der.as_slice()) {
+                            return Err(("c17-reload-stale-identity".to_string(), format!("step {i}: a handshake after {generation} reload(s) did not present the current certificate")));
+                        }
+                        open.push((cs, ss, generation));
+                    }
                     connects += 1;
                 }
                 RStep::UseOpen(k) => {
@@ -302,7 +343,7 @@ pub fn check_reload(c: &ReloadCase) -> Outcome {
                 RStep::Reload => {
                     generation += 1;
                     let (cp, kp, der) = write_leaf(generation);
-                    tls::reload_tls_identity(&identity, &cp, &kp, None).await.map_err(|e| ("c17-reload-failed".to_string(), format!("{e}")))?;
+                    tls::reload_tls_identity(&identity, &cp, &kp, ca_opt).await.map_err(|e| ("c17-reload-failed".to_string(), format!("{e}")))?;
                     current_der = der;
                     if !open.is_empty() {
                         reloaded_with_live = true;
@@ -320,8 +361,8 @@ pub fn check_reload(c: &ReloadCase) -> Outcome {
 
 pub fn run(ctx: &Ctx, rep: &mut Report) {
     rep.rule = "matrix {server leaf issued by the trusted CA / another CA / self-signed} x {requested name is a SAN / differs / SAN in other letter case} x {skip-verify on/off} x {client certificate none / under the client CA / under another CA} x {server client-CA configured / not} enumerated COMPLETELY (108 combinations) x 3 key algorithms in every run with fresh rcgen PKIs, \
-                plus random cases with generated SAN lists (incl. wildcards and several names); stateful part: generated sequences of {connect, use an open connection, reload identity}. Oracle: decision table of the statement; success = both handshakes complete and one byte is echoed each way; no client certificate is requested without a client CA; \
-                after reload every new handshake presents the new leaf and every established connection still echoes. Non-trivial = a case whose expected outcome is failure, or a reload with a live connection. Distinct = distinct case value."
+                plus random cases with generated SAN lists (incl. wildcards and several names); stateful part: generated sequences of {connect with no / a good / a foreign client certificate, use an open connection, reload identity}, with and without a client CA on the server. Oracle: decision table of the statement; success = both handshakes complete and one byte is echoed each way; no client certificate is requested without a client CA; \
+                after reload every new handshake presents the new leaf, is still authenticated as configured (client CA), and every established connection still echoes. Non-trivial = a case whose expected outcome is failure, or a reload with a live connection. Distinct = distinct case value."
         .into();
     rep.assumptions = vec![
         "TLS runs over tokio::io::duplex in-process through rusty_penguin_lib::tls::{tls_connect, make_server_config, make_tls_identity, reload_tls_identity} and tokio_rustls::TlsAcceptor exactly as serve_connection_tls uses it".into(),
@@ -368,7 +409,7 @@ pub fn run(ctx: &Ctx, rep: &mut Report) {
         ctx.tier.pick(600, 12_000),
         10,
         || {
-            (prop::collection::vec(prop_oneof![3 => Just(RStep::Connect), 3 => any::<u8>().prop_map(RStep::UseOpen), 2 => Just(RStep::Reload)], 2..14), 0u8..3).prop_map(|(steps, alg)| ReloadCase { steps, alg })
+            (prop::collection::vec(prop_oneof![3 => (0u8..3).prop_map(RStep::Connect), 3 => any::<u8>().prop_map(RStep::UseOpen), 2 => Just(RStep::Reload)], 2..14), 0u8..3, any::<bool>()).prop_map(|(steps, alg, client_ca)| ReloadCase { steps, alg, client_ca })
         },
         check_reload,
     );
